@@ -14,6 +14,8 @@ import (
 	"fmt"
 	"strconv"
 	"strings"
+	"sync"
+	"sync/atomic"
 	"testing"
 	"time"
 
@@ -116,7 +118,7 @@ func c10Clean(d []byte) *Message {
 }
 
 func TestC10(t *testing.T) {
-	V.Rule("unit: a datagram d (valid generated message; or cut at an offset - all offsets for messages < 600 B; or Content-Length rewritten to len+-delta / 0 / huge) is copied to the front of a dirty 64 KiB buffer whose remainder holds the worst-case stale bytes (the rest of the uncut message, so that stale bytes would complete d; or random; or 0xFF) and handed as (buffer, n) to the product's parse loop; differential against a clean decode of exactly d[:n], absolute against the generator (valid => equal message; over-declared / header-truncated => nothing). plus sequences of 2-14 datagrams (valid, cut, over/under-declared, bodies of mixed sizes) queued back-to-back through the pool and judged only after the whole sequence has been decoded. non-trivial = truncated or over-declared datagram whose stale tail would complete it, or any multi-datagram sequence; distinct by (datagram, mutation, dirt)")
+	V.Rule("unit: a datagram d (valid generated message; or cut at an offset - all offsets for messages < 600 B; or Content-Length rewritten to len+-delta / 0 / huge) is copied to the front of a dirty 64 KiB buffer whose remainder holds the worst-case stale bytes (the rest of the uncut message, so that stale bytes would complete d; or random; or 0xFF) and handed as (buffer, n) to the product's parse loop; differential against a clean decode of exactly d[:n], absolute against the generator (valid => equal message; over-declared / header-truncated => nothing). plus sequences of 2-14 datagrams (valid, cut, over/under-declared, bodies of mixed sizes) queued back-to-back through the pool and judged only after the whole sequence has been decoded. non-trivial = truncated or over-declared datagram whose stale tail would complete it, or any multi-datagram sequence; distinct by (datagram, mutation, dirt). lab: bursts of 2-40 datagrams from 1-4 sources through a listening proxy, and rounds in which two listen entries of the service receive 2 x 500 self-describing datagrams each at the same moment without waiting (every datagram that comes out must be the relay of exactly one sent datagram: start line, Subject, body, Content-Length, the Via of the listener that received it above the sender's Via, a backend of that listener, never twice; kernel drops are not judged)")
 	V.Assume("FIFO single parse loop: a sentinel datagram queued behind the case proves the loop is done with it")
 	V.Require("sequence of datagrams judged after all were decoded", "cut in headers", "cut in body", "over-declared", "under-declared", "valid intact", "stale tail completes the message")
 	loop := newC10Loop()
@@ -364,7 +366,7 @@ func c10Body(id string, n int) []byte {
 // parse loop of a listening proxy; every relayed datagram must be a function
 // of exactly one sent datagram.
 func c10Lab(t *testing.T) {
-	V.Require("lab: burst relayed and attributed", "lab: truncated or over-declared datagram inside a burst")
+	V.Require("lab: two listeners receiving at the same moment", "lab: burst relayed and attributed", "lab: truncated or over-declared datagram inside a burst")
 	svc, err := newStdSvc(stdVariant{})
 	if err != nil {
 		V.HarnessError(t, "cannot start lab instance: %v", err)
@@ -497,6 +499,163 @@ func c10Lab(t *testing.T) {
 		}
 		for id, rs := range byID {
 			failf(rt, "a datagram with Call-ID %q was relayed (%d times) that corresponds to no datagram of the burst\nburst: %v", id, len(rs), desc)
+		}
+	})
+
+	// Two listen entries of the service receive at the same moment: what is
+	// relayed for a datagram must still be a function of that datagram alone -
+	// nothing of a datagram another listener is relaying just then. Senders do
+	// not wait (the point is simultaneity); datagrams the kernel drops on the way
+	// are not the subject, only what comes out is judged.
+	t.Run("lab-parallel-listeners", func(t *testing.T) {
+		if V.replay && V.only != "parallel-listeners" {
+			return
+		}
+		rounds := V.N(3, 16)
+		if V.replay {
+			rounds = 16
+		}
+		type rec struct {
+			entry int
+			n     int
+			src   string
+		}
+		sizes := []int{0, 17, 120, 300, 700, 1400, 2500, 5000, 9000, 16000, 28000}
+		for round := 0; round < rounds && V.ViolationCount() == 0; round++ {
+			sent := map[string]rec{}
+			var mu sync.Mutex
+			stop := make(chan struct{})
+			var got []labRx
+			var collectorDone sync.WaitGroup
+			var lastRx atomic.Int64
+			lastRx.Store(time.Now().UnixNano())
+			collectorDone.Add(1)
+			go func() {
+				defer collectorDone.Done()
+				for {
+					select {
+					case r := <-s.in.hub.rx:
+						lastRx.Store(time.Now().UnixNano())
+						if _, isb := isBarrier(r); !isb && len(r.data) > 0 {
+							got = append(got, r)
+						}
+					case <-stop:
+						return
+					}
+				}
+			}()
+			var wg sync.WaitGroup
+			per := 500
+			for entry := 0; entry < 2; entry++ {
+				for u := 0; u < 2; u++ {
+					entry, u := entry, u
+					src := s.uas[entry*2+u]
+					l := s.in.cfg.Listens[entry]
+					wg.Add(1)
+					go func() {
+						defer wg.Done()
+						for i := 0; i < per; i++ {
+							id := fmt.Sprintf("c10par-%d-%d-%d-%d", round, entry, u, i)
+							n := sizes[(i*7+u*3+entry*5+round)%len(sizes)]
+							wire := []byte(fmt.Sprintf("MESSAGE sip:svc.test SIP/2.0\r\nVia: SIP/2.0/UDP %s:5060;branch=z9hG4bK%s\r\nFrom: <sip:a@b>;tag=1\r\nTo: <sip:svc@nomatch.example>\r\nCall-ID: %s\r\nCSeq: 1 MESSAGE\r\nSubject: s-%s\r\nContent-Length: %d\r\n\r\n", src.ip, id, id, id, n))
+							wire = append(wire, c10Body(id, n)...)
+							mu.Lock()
+							sent[id] = rec{entry, n, src.ip}
+							mu.Unlock()
+							src.sendUDP(l.Addr, l.UDPPort, wire)
+							if i%16 == 15 {
+								time.Sleep(200 * time.Microsecond) // keeps most of the burst out of the kernel's drop path; no ordering is implied
+							}
+						}
+					}()
+				}
+			}
+			wg.Wait()
+			// quiet for 300 ms of running time = everything the proxy will relay has arrived
+			patientUntil(20*time.Second, 20*time.Millisecond, func() bool { return time.Since(time.Unix(0, lastRx.Load())) > 300*time.Millisecond })
+			close(stop)
+			collectorDone.Wait()
+			V.EvalN(len(got))
+			V.Journal(t.Name(), map[string]any{"round": round, "datagrams_sent": len(sent), "relayed": len(got)})
+			seenID := map[string]bool{}
+			for _, r := range got {
+				bad := func(format string, args ...any) {
+					V.Violation(t, "parallel-listeners", map[string]any{"round": round, "relayed_datagram": jsonBytes(r.data), "arrived_at": r.where()}, "two listen entries receiving at the same moment (2 senders each, %d datagrams of 0-28000 body bytes per sender, %d relayed in this round): "+format, append([]any{per, len(got)}, args...)...)
+				}
+				if r.msg == nil {
+					bad("a datagram arrived at %s that is not a well-formed message: it cannot be the relay of any datagram sent", r.where())
+					break
+				}
+				id, _ := r.msg.First(hCallID)
+				sr, ok := sent[id]
+				if !ok {
+					if !strings.HasPrefix(id, "c10par-") {
+						continue // a late arrival of an earlier sub-test
+					}
+					bad("a datagram with Call-ID %q was relayed that corresponds to no datagram sent", id)
+					break
+				}
+				if seenID[id] {
+					bad("datagram %s was relayed twice", id)
+					break
+				}
+				seenID[id] = true
+				if !s.isBackendOf(r.ep, sr.entry, r.tcp != nil) {
+					bad("datagram %s, sent to listen entry %d, arrived at %s, which is not a backend of that entry", id, sr.entry, r.where())
+					break
+				}
+				if want := "MESSAGE sip:svc.test SIP/2.0"; r.msg.Start != want {
+					bad("datagram %s relayed with start line %q, sent %q", id, r.msg.Start, want)
+					break
+				}
+				if sub, _ := r.msg.Ext("Subject"); sub != "s-"+id {
+					bad("datagram %s relayed with Subject %q, sent %q: header of another datagram", id, sub, "s-"+id)
+					break
+				}
+				if !bytes.Equal(r.msg.Body, c10Body(id, sr.n)) {
+					bad("datagram %s: relayed body (%d bytes) is not the body this datagram carried (%d bytes): it contains bytes from elsewhere", id, len(r.msg.Body), sr.n)
+					break
+				}
+				if cl, _ := r.msg.First(hCL); cl != strconv.Itoa(sr.n) {
+					bad("datagram %s relayed with Content-Length %q, carried %d body bytes", id, cl, sr.n)
+					break
+				}
+				vs := r.msg.Entries(hVia)
+				L := s.in.cfg.Listens[sr.entry]
+				if len(vs) != 2 {
+					bad("datagram %s relayed with Via entries %q, want the receiving listener's above the sender's", id, vs)
+					break
+				}
+				v0, e0 := rVia(vs[0])
+				v1, e1 := rVia(vs[1])
+				if e0 != nil || e1 != nil || v0.Host != L.Addr || v0.Port != L.UDPPort {
+					bad("datagram %s was received by listen entry %d (%s:%d) but is relayed with top Via %q: taken from a datagram another listener relayed", id, sr.entry, L.Addr, L.UDPPort, vs[0])
+					break
+				}
+				if br, _, _ := v1.Param("branch"); v1.Host != sr.src || br != "z9hG4bK"+id {
+					bad("datagram %s relayed with the sender's Via %q: not the entry this datagram carried", id, vs[1])
+					break
+				}
+			}
+			V.Class("lab: two listeners receiving at the same moment")
+			V.NonTrivial(fmt.Sprintf("parallel|%d|%d", round, len(got)))
+			V.ExtraAdd("parallel_listeners_datagrams_sent", int64(len(sent)))
+			V.ExtraAdd("parallel_listeners_datagrams_relayed_and_judged", int64(len(seenID)))
+			if len(seenID) < len(sent)/20 {
+				V.Inconclusive(fmt.Sprintf("parallel listeners: only %d of %d datagrams came out (machine too loaded to judge simultaneity)", len(seenID), len(sent)))
+			}
+			// both listeners still serve
+			for entry := 0; entry < 2; entry++ {
+				l := s.in.cfg.Listens[entry]
+				src := s.uas[entry*2]
+				if _, err := s.in.settle(func(b []byte) error { return src.sendUDP(l.Addr, l.UDPPort, b) }, 0); err != nil {
+					if _, lost := err.(labLost); lost {
+						V.Violation(t, "parallel-listeners", nil, "after the parallel round %d: %v", round, err)
+					} else {
+						V.HarnessError(t, "%v", err)
+					}
+				}
+			}
 		}
 	})
 }
